@@ -210,7 +210,7 @@ func replayNative(id string, spec *ReplaySpec, v *Violation, repo string) {
 		if _, err := os.Stat(real); err != nil {
 			real = filepath.Join(workDir(id), f)
 		}
-		ov[filepath.Join(pkgDir, "zz_verif_"+filepath.Base(f))] = real
+		ov[filepath.Join(pkgDir, "zz_verif_"+filepath.Base(f))] = substPkg(real, pkgName, d)
 	}
 	ovFile := filepath.Join(d, base+".overlay.json")
 	ob, _ := json.Marshal(map[string]interface{}{"Replace": ov})
